@@ -546,6 +546,22 @@ def exp(t):
     return t.exp()
 
 
+def log2(t):
+    return t.log2()
+
+
+def floor(t):
+    return t.floor()
+
+
+def ceil(t):
+    return t.ceil()
+
+
+def exp2(t):
+    return t.exp2()
+
+
 def sign(t):
     return t.sign()
 
@@ -860,6 +876,21 @@ def cdist(a, b, p=2.0, compute_mode=None):
         raise ShimUnsupported("batched cdist")
     if p != 2:
         raise ShimUnsupported("cdist p != 2")
+    if compute_mode not in (None, "use_mm_for_euclid_dist_if_necessary", "use_mm_for_euclid_dist", "donot_use_mm_for_euclid_dist"):
+        raise ValueError(f"{compute_mode} is not a valid value for compute_mode")
+    if compute_mode != "donot_use_mm_for_euclid_dist":
+        # torch's documented behaviour: with more than 25 rows (or always, for use_mm_for_euclid_dist) the distances are computed as
+        # sqrt(|a|^2 + |b|^2 - 2 a.b), which cancels catastrophically for rows with a large common component.  The small matrices analysed here
+        # stand for all sizes, so the answer is modelled as it is for the large ones: NOT the exact distances but arbitrary non-negative numbers.
+        _core.log("kernel", "cdist", "mm_if_necessary", None)
+        m, n = a.shape[0], b.shape[0]
+        out = []
+        for i in range(m):
+            for j in range(n):
+                v = _symx.fresh(f"cdist_mm_{i}_{j}")
+                _symx.assume(v >= 0)
+                out.append(v)
+        return Tensor._make(out, (m, n), a.dtype)
     if isinstance(a, GramOnly):
         if b is not a:
             raise GramOnlyRead("cdist(J, other)")
